@@ -98,6 +98,12 @@ def failure_scenarios():
     sc.append(('kernel refusal at the initiator', dict(refuse='A')))
     sc.append(('kernel refusal of a delete', dict(refuse='A', refuse_kind='DELSA')))
     sc.append(('plain', dict()))
+    # the two peers list the same algorithms in opposite preference orders and the ORIGINAL RESPONDER starts the follow-up exchanges: an IKE_SA rekey then
+    # changes the negotiated PRF / integrity / key length (each responder follows its own order) - whatever is said about the old and the new keys stays at DEBUG
+    orders = {'A': {'ike_prf': ['sha256', 'sha512', 'sha1'], 'ike_integ': ['sha1', 'sha512'], 'ike_encr': ['aes128', 'aes256'], 'child_encr': ['aes256', 'aes128'], 'child_integ': ['sha512', 'sha1']},
+              'B': {'ike_prf': ['sha1', 'sha512', 'sha256'], 'ike_integ': ['sha512', 'sha1'], 'ike_encr': ['aes256', 'aes128'], 'child_encr': ['aes128', 'aes256'], 'child_integ': ['sha1', 'sha512']}}
+    sc.append(('opposite preference orders, follow-ups by the responder', dict(opts_by_ep=orders, starter='B')))
+    sc.append(('opposite preference orders, follow-ups by the initiator', dict(opts_by_ep=orders)))
     return sc
 
 
@@ -116,23 +122,24 @@ def run_failure(name, spec, seed, keep_debug=False):
     try:
         log = w.establish('A')
         # a few follow-up exchanges where possible: new child, rekeys, delete
+        st = spec.get('starter', 'A')          # who starts the follow-up exchanges: the original initiator, or the original responder
         for trig in ('acquire', 'rekey', 'rekeyike', 'delete'):
-            a = [s for s in w.sas('A') if s.state.name == 'ESTABLISHED']
+            a = [s for s in w.sas(st) if s.state.name == 'ESTABLISHED']
             if not a:
                 break
             sa = a[0]
             if trig == 'acquire':
-                m = w.acquire('A', sport=0, dport=0)
+                m = w.acquire(st, sport=0, dport=0)
             elif trig == 'rekey' and sa.child_sas:
-                m = w.expire('A', bytes(sa.child_sas[0].inbound_spi), False)
+                m = w.expire(st, bytes(sa.child_sas[0].inbound_spi), False)
             elif trig == 'rekeyike':
                 sa.rekey_ike_sa_at = w.now - 1
-                m = w.timer('A', sa, 'check_rekey_ike_sa_timer')
+                m = w.timer(st, sa, 'check_rekey_ike_sa_timer')
             elif trig == 'delete' and sa.child_sas:
-                m = w.expire('A', bytes(sa.child_sas[0].inbound_spi), True)
+                m = w.expire(st, bytes(sa.child_sas[0].inbound_spi), True)
             else:
                 continue
-            cur = 'A'
+            cur = st
             hops = 0
             while m is not None and hops < 8:
                 nxt = w.peer_of(cur)
